@@ -22,12 +22,12 @@ import CpProps.C18a
 
   NOT claimed: bytes copied inside one step (`unparsed_bytes[parsed_length:]` is quadratic in bytes for many small
   items; `C18.search_bytes_quadratic` for the text scanner).
-  NOT claimed either: the body parsers of the extension classes with structured bodies (CpModel/Tls/Ext2.lean:
-  server_name, ALPN/ALPS, NPN, status_request, key_share, token_binding, SCT list) — they cost 0 ticks in the cost model
-  (`extBodyTicks (.ext2 _) = 0`) and the driver reports an input that reaches one of them as outside the model
-  (`walkExtOutside`).  They are not confined to the declared extension length; a name list or SCT list that reads far
-  beyond its extension and is then rejected as an invalid value (the extension kept by the fallback class) is NOT paid
-  for by the bytes the extension consumes, so "one extension is paid for by the bytes it consumes" is false for them.
+  The extension classes with structured bodies (CpModel/Tls/Ext2.lean: server_name, ALPN/ALPS, NPN, status_request,
+  key_share, token_binding, SCT list) have tick functions of their own (`ext2BodyTicks`) and are covered by the linear
+  bounds of the hello messages: every class is given its own extension data only, so a body parser — whether it accepts,
+  rejects as an invalid value (the extension then stays with the fallback class) or fails — costs at most
+  `ext2BodyA * len + ext2BodyC` (`structured_body_bounded_by_extension`), and an accepted one is paid for by the bytes it
+  consumes (`structured_body_paid_by_consumed`).
 -/
 namespace Cp.C19
 open Cp Cp.Codec Cp.Tls Cp.Cost
@@ -193,6 +193,17 @@ theorem serverHello_linear (typ : Nat) (bs : Bytes) :
 theorem certificate_linear (bs : Bytes) :
     certificateTicks bs ≤ certificatesA * bs.length + (certificatesB + hsHeaderTicks) :=
   hsFramedTicks_le certificatesTicks_le bs
+
+/-- a structured extension body that is accepted is paid for by the bytes it consumes -/
+theorem structured_body_paid_by_consumed {k : Ext2Kind} {len : Nat} {rest : Bytes} {b : Ext2Body} {m : Nat}
+    (h : parseExt2Body k len rest = .ok (b, m)) : ext2BodyTicks k len rest ≤ ext2BodyA * m + ext2BodyC :=
+  ext2BodyTicks_ok h
+
+/-- … and whatever the outcome it costs at most linearly in the data the class is given — which is the declared
+extension data (`walkExtVariants` passes `(bs.drop 4).take len`), never what follows the extension -/
+theorem structured_body_bounded_by_extension (k : Ext2Kind) (len : Nat) (rest : Bytes) :
+    ext2BodyTicks k len rest ≤ ext2BodyA * rest.length + ext2BodyC :=
+  ext2BodyTicks_any k len rest
 
 /-- one extension is paid for by the bytes it consumes (the hypothesis `items_cost_linear` needs) -/
 theorem extension_paid_by_consumed {variants : List (String × Nat)} {bs : Bytes} {e : Ext} {n : Nat}
